@@ -22,8 +22,10 @@ from .model import ClassInfo, FuncInfo, Model
 from .src import AnalysisError
 
 PI = sp.pi
-DEG = PI / 180
-UNIT = {'deg': DEG, 'degree': DEG, 'rad': sp.Integer(1), 'radian': sp.Integer(1),
+# ANG marks "is an angular quantity" (value 1): angles are carried in radians
+ANG = sp.Symbol('ANG', positive=True)
+DEG = ANG * PI / 180
+UNIT = {'deg': DEG, 'degree': DEG, 'rad': ANG, 'radian': ANG,
         'arcsec': DEG / 3600, 'arcmin': DEG / 60, 'hourangle': DEG * 15,
         'pix': sp.Symbol('PIX', positive=True), 'pixel': sp.Symbol('PIX', positive=True),
         'dimensionless_unscaled': sp.Integer(1)}
@@ -1043,7 +1045,7 @@ class Evaluator:
         if isinstance(base, Ite):
             return mk_ite(base.cond, self.attr(base.a, attr, fr), self.attr(base.b, attr, fr))
         if isinstance(base, App) and base.name == 'to' and attr == 'value':
-            return base.args[0] / base.args[1]
+            return (base.args[0] / base.args[1]).subs(ANG, 1)
         if is_num(base):
             if attr == 'value':
                 return App('attr:value', (base,))
@@ -1074,6 +1076,17 @@ class Evaluator:
                     kwargs['**'] = v
             else:
                 kwargs[k.arg] = v
+        # super().method(...)
+        if isinstance(n.func, ast.Attribute) and isinstance(n.func.value, ast.Call) and \
+                isinstance(n.func.value.func, ast.Name) and n.func.value.func.id == 'super' \
+                and fr.fi.cls and fr.self_obj is not None:
+            here = self.m.modules[fr.fi.module].classes.get(fr.fi.cls)
+            inst = getattr(fr.self_obj, 'ci', None) or here
+            mro = inst.mro if here in inst.mro else here.mro
+            for c in mro[mro.index(here) + 1:]:
+                if n.func.attr in c.methods:
+                    return self.call(c.methods[n.func.attr], [fr.self_obj] + args, kwargs, fr.depth + 1)
+            return Const(None)
         # method call on a value
         if isinstance(n.func, ast.Attribute):
             base = self.expr(n.func.value, env, fr)
@@ -1118,7 +1131,8 @@ class Evaluator:
         if isinstance(f, ExtRef):
             return self.prim(f.name, args, kwargs, fr)
         if isinstance(f, App):
-            return App('apply', (f,) + tuple(args))
+            return App('apply', (f,) + tuple(args) + tuple(
+                Tup((Const(k), v)) for k, v in sorted(kwargs.items())))
         if isinstance(f, Ite):
             return mk_ite(f.cond, self.apply(f.a, args, kwargs, fr), self.apply(f.b, args, kwargs, fr))
         return Unknown(f'call of {type(f).__name__}')
@@ -1126,6 +1140,10 @@ class Evaluator:
     def method_call(self, base, meth, args, kwargs, fr, node):
         if is_unknown(base):
             return base
+        if 'method:' + meth in self.hooks:
+            r = self.hooks['method:' + meth](self, [base] + list(args), kwargs)
+            if r is not NotImplemented:
+                return r
         if isinstance(base, DictV):
             if meth == 'update':
                 for a in args:
@@ -1163,6 +1181,8 @@ class Evaluator:
                 return DictV([App('define_mpl_kwargs', (base,) + tuple(args))])
         if isinstance(base, App) and meth == 'get' and base.name in ('copy',):
             return App('meta.get', base.args + tuple(args))
+        if isinstance(base, App) and meth == 'copy' and base.name in ('copy',):
+            return base
         if isinstance(base, Tup):
             if meth == 'append' and isinstance(node.func.value, ast.Name):
                 # handled by caller through env rebinding
@@ -1200,7 +1220,8 @@ class Evaluator:
         if root in ('numpy', 'np', 'math') or name in ('abs', 'max', 'min', 'float', 'int',
                                                        'cos', 'sin', 'sqrt', 'fabs'):
             if short in ('cos', 'sin') and len(a) == 1 and is_num(a[0]):
-                return sp.cos(a[0]) if short == 'cos' else sp.sin(a[0])
+                x = a[0].subs(ANG, 1)
+                return sp.cos(x) if short == 'cos' else sp.sin(x)
             if short == 'sqrt' and numeric and len(a) == 1:
                 return sp.sqrt(a[0])
             if short == 'hypot' and numeric and len(a) == 2:
@@ -1247,6 +1268,8 @@ class Evaluator:
         if name == 'math.pi' or name == 'numpy.pi':
             return sp.pi
         if short in ('deepcopy',) or name in ('copy.copy', 'numpy.copy'):
+            if isinstance(a[0], Obj) and a[0].cls in ('RegionMeta', 'RegionVisual') and a[0].path:
+                return App('copy', (a[0],))
             return a[0]
         if name == 'isinstance' and len(a) == 2:
             return App('isinstance', tuple(a))
@@ -1323,7 +1346,7 @@ def _Q(q, u):
 
 def _has_unit(q):
     q = unq(q)
-    return is_num(q) and (q.has(PIX) or bool(q.free_symbols & _QSYMS))
+    return is_num(q) and (q.has(PIX) or q.has(ANG) or bool(q.free_symbols & _QSYMS))
 
 
 _QSYMS = set()
@@ -1519,7 +1542,7 @@ def num_equal(a, b):
     """True/False for numeric terms (over the reals, primitives trusted)."""
     if not (is_num(a) and is_num(b)):
         return None
-    d = a - b
+    d = (a - b).subs(ANG, 1)
     d = _rewrite_minmax(sp.expand(d)) if d.has(sp.Max) else d
     try:
         d = _trig_reduce(d)
